@@ -143,7 +143,7 @@ impl<'a> Decoder<'a> {
     fn decode_array(&mut self, container_header: u32) -> Result<Value<'a>, Error> {
         let length = (container_header & CONTAINER_HEADER_LEN_MASK) as usize;
         let jentries = self.decode_jentries(length)?;
-        let mut values: Vec<Value> = Vec::with_capacity(length);
+        let mut values: Vec<Value> = Vec::with_capacity(jentries.len());
         // decode all values
         for jentry in jentries.into_iter() {
             let value = self.decode_scalar(jentry)?;
@@ -160,7 +160,7 @@ impl<'a> Decoder<'a> {
         let length = (container_header & CONTAINER_HEADER_LEN_MASK) as usize;
         let mut jentries = self.decode_jentries(length * 2)?;
 
-        let mut keys: VecDeque<Value> = VecDeque::with_capacity(length);
+        let mut keys: VecDeque<Value> = VecDeque::with_capacity(jentries.len() / 2);
         // decode all keys first
         for _ in 0..length {
             let jentry = jentries.pop_front().unwrap();
@@ -184,7 +184,8 @@ impl<'a> Decoder<'a> {
 
     // Decode `JEntries` for `Array` and `Object`
     fn decode_jentries(&mut self, length: usize) -> Result<VecDeque<JEntry>, Error> {
-        let mut jentries: VecDeque<JEntry> = VecDeque::with_capacity(length);
+        // every `JEntry` takes 4 bytes, the count read from the header can not be trusted
+        let mut jentries: VecDeque<JEntry> = VecDeque::with_capacity(length.min(self.buf.len() / 4));
         for _ in 0..length {
             let encoded = self.buf.read_u32::<BigEndian>()?;
             let jentry = JEntry::decode_jentry(encoded);
